@@ -45,6 +45,8 @@ func checkC07(w *World, r *Report) {
 	r.Rule("R07.10", "a write succeeds only after its packets were acknowledged", 1)
 	r.Rule("R07.12", "the byte count of a write covers every chunk it queued", 1)
 	r.Rule("R07.17", "a flag raised around a region is lowered on every path out of it", 1)
+	r.Rule("R07.21", "when data arrives every registered reader is notified (a timed-out reader's notifier stays on the list by design)", 1)
+	c07EveryWaiterIsWoken(w, r)
 	r.Rule("R07.20", "a chunk the in-queue refuses leaves the queue as it was, and a refusal always depends on the chunk offered (no sticky failure)", 1)
 	r.Rule("R07.19", "the retransmitting poller closes the connection only on an identity-tested verdict, never on accumulated transient failures", 2)
 	r.Rule("R07.18", "every Unlock releases a mutex that is held on every path reaching it (unlock of an unlocked mutex is a fatal error)", 10)
@@ -1793,4 +1795,30 @@ func startedWithGo(w *World, fn *ssa.Function) bool {
 		}
 	}
 	return false
+}
+
+// pkgFuncs: the functions (closures included) of the module packages whose path has one of the given suffixes.
+func pkgFuncs(w *World, suffixes ...string) []*ssa.Function {
+	var out []*ssa.Function
+	for fn := range allModuleFuncs(w, w.SSA()) {
+		f := fn
+		for f.Parent() != nil {
+			f = f.Parent()
+		}
+		if f.Pkg == nil {
+			continue
+		}
+		for _, sfx := range suffixes {
+			if strings.HasSuffix(f.Pkg.Pkg.Path(), sfx) {
+				out = append(out, fn)
+			}
+		}
+	}
+	sort.Slice(out, func(i, j int) bool {
+		if out[i].Pos() != out[j].Pos() {
+			return out[i].Pos() < out[j].Pos()
+		}
+		return out[i].String() < out[j].String()
+	})
+	return out
 }
